@@ -277,6 +277,9 @@ def keccak_ops(sha3=False):
             kw["bitlen"] = x.rng.randint(1, min(8 * n, r - 2))
         if x.rng.random() < 0.3:
             kw["outlen"] = x.rng.randint(1, r)
+        if sha3 and x.rng.random() < 0.3:
+            # the inherited setrate() called with the rate the object already has: no change of configuration
+            x.call(c, "setrate", [r], cls=HIST, tag="setrate_same")
         x.call(c, "duplex", [B(rbytes(x.rng, n))], kw, cls=HIST, tag="duplex")
     ops["duplex"] = (HIST, duplex)
     if sha3:
